@@ -114,22 +114,21 @@ Section Behaviour.
     - apply IH; assumption.
   Qed.
 
-  Lemma beq_insert i n l : good_name n = true -> beq (insert_at i (ProfCall n None) l) l.
+  Lemma beq_calls loc names : good names -> beq (calls loc names) [].
   Proof.
-    intros Hn. unfold insert_at. rewrite <- (firstn_skipn (Z.to_nat i) l) at 3.
-    apply beq_app; [apply beq_refl|].
-    apply (beq_cons (ProfCall n None) [] _ _ (reg_inert n None Hn) (beq_refl _)).
+    intros Hg. apply beq_all_prof; [apply calls_all_prof|rewrite regs_calls; exact Hg].
   Qed.
 
-  Lemma beq_insert_regs d ks : forall st,
-    good (regs (fst (fold_left (insert_step d) ks st))) ->
-    beq (fst (fold_left (insert_step d) ks st)) (fst st).
+  (* stage 1 in interleaved form: every statement followed by its registrations *)
+  Lemma beq_expand f : forall b i, good (regs (expand f i b)) -> beq (expand f i b) b.
   Proof.
-    induction ks as [|k ks IH]; intros st Hg; cbn [fold_left] in *; [apply beq_refl|].
-    eapply beq_trans; [apply IH; exact Hg|].
-    unfold insert_step. destruct (dict_get d k) as [n|] eqn:E; [|apply beq_refl]. cbn [fst].
-    apply beq_insert. apply Hg. apply regs_insert_regs. right.
-    unfold insert_step. rewrite E. cbn [fst]. apply regs_insert_in. left. left. reflexivity.
+    induction b as [|s r IH]; intros i Hg; [exact beq_nil|].
+    cbn [expand] in *. change (map (fun n => ProfCall n (stmt_line s)) (f i)) with (calls (stmt_line s) (f i)) in *.
+    rewrite regs_cons, regs_app, regs_calls in Hg. apply good_app in Hg as [_ Hg]. apply good_app in Hg as [G1 G2].
+    change (s :: r) with ([s] ++ ([] ++ r)).
+    change (s :: calls (stmt_line s) (f i) ++ expand f (i + 1) r)
+      with ([s] ++ (calls (stmt_line s) (f i) ++ expand f (i + 1) r)).
+    apply beq_app; [apply beq_refl|]. apply beq_app; [apply beq_calls; exact G1|apply IH; exact G2].
   Qed.
 
   (* ---- fix_missing_locations only touches locations of registration statements ------------ *)
@@ -166,11 +165,11 @@ Section Behaviour.
     eapply beq_trans; [apply deco_identity|apply cong_func; exact Hb].
   Qed.
 
-  Lemma visit_import_regs pi ns s :
-    good (regs (s :: fst (visit_import_names pi ns))) -> is_leaf s = true ->
-    beq (s :: fst (visit_import_names pi ns)) [s] /\ good (regs_stmt s).
+  Lemma visit_import_regs loc pi ns s :
+    good (regs (s :: fst (visit_import_names loc pi ns))) -> is_leaf s = true ->
+    beq (s :: fst (visit_import_names loc pi ns)) [s] /\ good (regs_stmt s).
   Proof.
-    intros Hg Hl. unfold regs in Hg. cbn [flat_map] in Hg. apply good_app in Hg as [G1 G2]. split; [|exact G1].
+    intros Hg Hl. rewrite regs_cons in Hg. apply good_app in Hg as [G1 G2]. split; [|exact G1].
     apply (beq_cons s [s] _ []); [apply exec_leaf; exact Hl|].
     apply beq_all_prof; [apply visit_import_names_all_prof|exact G2].
   Qed.
@@ -215,12 +214,12 @@ Section Behaviour.
       unfold regs. cbn [flat_map regs_stmt]. rewrite app_nil_r. intros Hg.
       destruct (Hb Hg) as [B K]. split; [apply cong_class; exact B|exact K].
     - intros ns l pi. cbn [visit_stmt]. destruct imports.
-      + pose proof (visit_import_regs pi ns (Import ns l)) as H.
-        destruct (visit_import_names pi ns) as [extra pi']. cbn [fst] in *. intros Hg. apply H; [exact Hg|reflexivity].
+      + pose proof (visit_import_regs (Some l) pi ns (Import ns l)) as H.
+        destruct (visit_import_names (Some l) pi ns) as [extra pi']. cbn [fst] in *. intros Hg. apply H; [exact Hg|reflexivity].
       + cbn [fst]. intros _. split; [apply beq_refl|intros y []].
-    - intros m ns lv l pi. cbn [visit_stmt]. destruct imports.
-      + pose proof (visit_import_regs pi ns (ImportFrom m ns lv l)) as H.
-        destruct (visit_import_names pi ns) as [extra pi']. cbn [fst] in *. intros Hg. apply H; [exact Hg|reflexivity].
+    - intros m ns lv l pi. cbn [visit_stmt]. destruct (imports && negb (from_future m)).
+      + pose proof (visit_import_regs (Some l) pi ns (ImportFrom m ns lv l)) as H.
+        destruct (visit_import_names (Some l) pi ns) as [extra pi']. cbn [fst] in *. intros Hg. apply H; [exact Hg|reflexivity].
       + cbn [fst]. intros _. split; [apply beq_refl|intros y []].
     - intros i bs l Hbs pi. cbn [visit_stmt]. specialize (Hbs pi). unfold visit_bodies in Hbs.
       destruct (smap _ pi bs) as [bs' pi']. cbn [fst] in *.
@@ -232,26 +231,18 @@ Section Behaviour.
   Qed.
 
   (* ---- the theorem ------------------------------------------------------------------------ *)
-  Theorem behaviour_tree full imports d body :
-    good (regs (profile_ast_tree full imports d body)) ->
-    beq (profile_ast_tree full imports d body) body.
+  Theorem behaviour c body :
+    (forall y, In y (regs (transform c body)) -> good_name y = true) ->
+    forall e, fst (exec (transform c body) e) = fst (exec (pre c body) e)
+              /\ eqv (snd (exec (transform c body) e)) (snd (exec (pre c body) e)).
   Proof.
-    unfold profile_ast_tree. intros Hg. rewrite regs_fix in Hg.
-    eapply beq_trans; [apply beq_fix; exact Hg|].
-    unfold insert_regs in *. destruct full.
-    - destruct (beq_visit imports _ _ Hg) as [B K].
-      eapply beq_trans; [exact B|]. apply (beq_insert_regs d _ (body, [])). exact K.
-    - apply (beq_insert_regs d _ (body, [])). exact Hg.
-  Qed.
-
-  Theorem behaviour c body t' :
-    transform c body = Ok t' ->
-    (forall y, In y (regs t') -> good_name y = true) ->
-    forall e, fst (exec t' e) = fst (exec (pre c body) e)
-              /\ eqv (snd (exec t' e)) (snd (exec (pre c body) e)).
-  Proof.
-    intros H Hg e. apply transform_ok in H as [d [_ ->]].
-    apply (behaviour_tree _ _ d (pre c body) Hg e e (eqv_refl e)).
+    intros Hg e. rewrite transform_stages in *. rewrite regs_fix in Hg.
+    assert (B : beq (fix_locs 1 (stage2 c body)) (pre c body)).
+    { eapply beq_trans; [apply beq_fix; exact Hg|]. unfold stage2 in *. destruct (c_full c).
+      - destruct (beq_visit (c_imports c) _ _ Hg) as [B K].
+        eapply beq_trans; [exact B|]. unfold stage1 in *. apply beq_expand. exact K.
+      - unfold stage1 in *. apply beq_expand. exact Hg. }
+    apply (B e e (eqv_refl e)).
   Qed.
 End Behaviour.
 
@@ -281,13 +272,12 @@ Qed.
 (* Non-vacuity of C08_behaviour: the trace semantics satisfies every Section hypothesis
    (with eqv := eq and every name good), so the theorem applies to it; its conclusion
    there says that the rewritten program visits the same original lines in the same order. *)
-Theorem behaviour_nonvacuous c body t' :
-  transform c body = Ok t' -> snd (toy_exec t' []) = snd (toy_exec (pre c body) []).
+Theorem behaviour_nonvacuous c body :
+  snd (toy_exec (transform c body) []) = snd (toy_exec (pre c body) []).
 Proof.
-  intros H.
   refine (proj2 (behaviour (list Z) unit toy_exec (fun _ => true) tt eq
                            (fun e => eq_refl) (fun a b E => eq_sym E) (fun a b c E1 E2 => eq_trans E1 E2)
-                           _ _ _ _ _ _ _ (fun _ => true) _ c body t' H (fun _ _ => eq_refl) [])).
+                           _ _ _ _ _ _ _ (fun _ => true) _ c body (fun _ _ => eq_refl) [])).
   - intros e. unfold toy_exec. cbn. rewrite app_nil_r. reflexivity.
   - intros a b e. unfold toy_exec, lines. cbn [fst snd]. rewrite flat_map_app, app_assoc. reflexivity.
   - intros s _. apply toy_beq_iff. reflexivity.
